@@ -191,3 +191,89 @@ func VHarness_C08_Twin() {
 	}
 	vReach("done")
 }
+
+// C02/C08/C11 (on-disk state machines): a chain of streamed snapshots.  O has
+// applied everything, L and R lag by arbitrary amounts; O streams to L, L
+// (possibly after an empty entry) streams to R, R applies what remains.  The
+// on-disk index a replica publishes with a snapshot must be the index of the
+// data it actually holds, otherwise a receiver skips loading the data while
+// its applied index jumps: R must end with every update exactly once.
+//vcheck: props=C02,C11 reach=l-loaded,r-loaded,done workers=8
+func VHarness_C08_OnDiskSnapshotChain() {
+	n := 4
+	vInitResults(n + 2)
+	mk := func(self uint64) (*StateMachine, *vUSM, *vSnapshotter) {
+		node, u, sn := &vNode{self: self}, &vUSM{onDisk: true, openIndex: vBase - 1}, &vSnapshotter{}
+		s := vNewSM(u, node, sn, 2)
+		s.index, s.term = vBase-1, 5
+		s.lastApplied.index, s.lastApplied.term = vBase-1, 5
+		_, err := s.OpenOnDiskStateMachine()
+		vAssert(err == nil, "open-noerr")
+		return s, u, sn
+	}
+	var ents []pb.Entry
+	for i := 0; i < n+2; i++ {
+		ents = append(ents, pb.Entry{Type: pb.ApplicationEntry, Index: vBase + uint64(i), Term: 5, Key: uint64(i), ClientID: 77, SeriesID: client.NoOPSeriesID, Cmd: []byte{byte(i)}})
+	}
+	apply := func(s *StateMachine, from, to int) {
+		if to > from {
+			s.taskQ.Add(Task{Entries: ents[from:to]})
+			_, err := s.Handle(nil, nil)
+			vAssert(err == nil, "noerr")
+		}
+	}
+	O, uO, snO := mk(1)
+	L, uL, snL := mk(2)
+	R, uR, snR := mk(3)
+	apply(O, 0, n)
+	x := vChoose("lApplied", n)
+	y := vChoose("rApplied", n)
+	apply(L, 0, x)
+	apply(R, 0, y)
+	// O -> L
+	vAssert(O.Stream(nil) == nil, "stream-noerr")
+	snL.img = snO.streamed
+	vAssert(snL.img.ss.Index == vBase+uint64(n)-1 && snL.img.ss.OnDiskIndex == vBase+uint64(n)-1, "origin-publishes-its-applied-index")
+	_, err := L.Recover(Task{Recover: true, Index: snL.img.ss.Index})
+	vAssert(err == nil, "recover-noerr")
+	vAssert(snL.loads == 1, "lagging-replica-loads-the-data")
+	vReach("l-loaded")
+	vAssert(len(uL.updates) == len(uO.updates), "L-holds-the-streamed-data")
+	// L becomes the sender; before that it may apply an empty entry (a new leader's no-op)
+	next := n
+	if vBool("emptyEntryFirst") {
+		e := pb.Entry{Type: pb.ApplicationEntry, Index: vBase + uint64(n), Term: 5}
+		L.taskQ.Add(Task{Entries: []pb.Entry{e}})
+		_, err := L.Handle(nil, nil)
+		vAssert(err == nil, "noerr")
+		next = n + 1
+	}
+	vAssert(L.Stream(nil) == nil, "stream-noerr")
+	img := snL.streamed
+	// what a snapshot says it contains is what its sender holds
+	vAssert(img.ss.OnDiskIndex == vBase+uint64(n)-1, "published-on-disk-index-is-the-index-of-the-data-held")
+	snR.img = img
+	_, err = R.Recover(Task{Recover: true, Index: img.ss.Index})
+	vAssert(err == nil, "recover-noerr")
+	if snR.loads == 1 {
+		vReach("r-loaded")
+	} else {
+		_ = 0 // (unreachable on a correct tree: R always lags behind what L publishes)
+	}
+	vAssert(R.index == img.ss.Index, "applied-index-is-snapshot-index")
+	// R continues with the log after the snapshot
+	if next == n {
+		apply(R, n, n+1)
+	} else {
+		rest := []pb.Entry{ents[n+1]}
+		R.taskQ.Add(Task{Entries: rest})
+		_, err := R.Handle(nil, nil)
+		vAssert(err == nil, "noerr")
+	}
+	// every update up to the snapshot exactly once, in order, then the new one
+	vAssert(len(uR.updates) == n+1, "R-holds-every-update-exactly-once")
+	for i := 0; i < len(uR.updates) && i < n; i++ {
+		vAssert(uR.updates[i].index == vBase+uint64(i), "R-updates-in-index-order")
+	}
+	vReach("done")
+}
